@@ -28,7 +28,8 @@ NSteps     == IF Q THEN {4} ELSE {1, 4}
 AtP(k, v)  == [k |-> k, v |-> v]
 Ats        == IF Q THEN {AtP("none", 0), AtP("start", 0), AtP("end", 0), AtP("lit", 3)}
                    ELSE {AtP("none", 0), AtP("start", 0), AtP("end", 0), AtP("lit", 0), AtP("lit", 3), AtP("lit", 12)}
-Contexts   == IF Q THEN {"bare", "sumby"} ELSE {"bare", "paren", "sumby", "mul1"}
+\* "merged": the selector next to a broader selector of the same metric, so that MergeSelects rewrites it
+Contexts   == IF Q THEN {"bare", "sumby", "merged"} ELSE {"bare", "paren", "sumby", "mul1", "merged"}
 
 Kinds == {"-", "f", "s"}
 Layouts == {lay \in [0..MaxT -> Kinds] : Cardinality({u \in 0..MaxT : lay[u] # "-"}) <= MaxSamples}
@@ -53,6 +54,8 @@ PlanOf(x) == CASE x.ctx = "bare"  -> <<SelNodeOf(x)>>
                [] x.ctx = "paren" -> <<SelNodeOf(x), Paren(1)>>
                [] x.ctx = "sumby" -> <<SelNodeOf(x), Agg("sum", FALSE, <<>>, <<1>>)>>
                [] x.ctx = "mul1"  -> <<SelNodeOf(x), Num(1), Bin("*", 1, 2)>>
+               [] x.ctx = "merged" -> <<SelAt(<<Metric("m"), Eq("a", "x")>>, x.off, AtK(x), AtV(x)), Agg("sum", TRUE, <<>>, <<1>>),
+                                        Sel(<<Metric("m")>>), Agg("count", TRUE, <<>>, <<3>>), Bin("*", 2, 4)>>
 
 EndOf(x) == IF x.step = 0 THEN x.start ELSE x.start + (x.n - 1) * x.step
 
